@@ -17,4 +17,15 @@ MUTANTS = [
          old="return ((c->datasize - c->tail) + c->head);     \\", new="return ((c->datasize - c->tail) + c->head - (c->head > 1));\\"),
     dict(prop="C19", name="iter-new-to-old-from-head", file="include/ufw/ring-buffer-iter.h",
          old="(c->head == 0) ? c->datasize - 1 : c->head - 1; \\", new="(c->head == 0) ? c->datasize - 1 : c->head - (c->head < 3); \\"),
+    # ---- C16
+    dict(prop="C16", name="table-entry", file="src/crc-16-arc.c", old="0x71c0, 0x7080, 0xb041, 0x5000,", new="0x71c0, 0x7080, 0xb041, 0x5001,"),
+    dict(prop="C16", name="u16-swapped-octets", file="src/crc-16-arc.c",
+         old="""#elif defined(SYSTEM_ENDIANNESS_LITTLE)
+        crc = crc16_octet(crc, (*buffer) & 0xffu);
+        crc = crc16_octet(crc, (*buffer >> 8u) & 0xffu);""",
+         new="""#elif defined(SYSTEM_ENDIANNESS_LITTLE)
+        crc = crc16_octet(crc, (*buffer >> 8u) & 0xffu);
+        crc = crc16_octet(crc, (*buffer) & 0xffu);"""),
+    dict(prop="C16", name="buffer-initial-ffff", file="src/crc-16-arc.c",
+         old="    return ufw_crc16_arc_u16(CRC16_ARC_INITIAL, buffer, len);", new="    return ufw_crc16_arc_u16(len > 40 ? 1 : CRC16_ARC_INITIAL, buffer, len);"),
 ]
